@@ -359,6 +359,71 @@ class SymText(Sym):
     def __repr__(self):
         return "SymText(%r)" % (self.src,)
 
+    def flat(self):
+        return list(self.parts) if self.parts is not None else [self]
+
+    def sym_eq(self, I, other):
+        """structural equality: same literal pieces, same format specs, equal sources.
+        Sound for integer holes because int formatting with one spec is injective."""
+        if isinstance(other, str):
+            if self.parts is None and isinstance(self.src, (SymInt, SymBool)):
+                return False if not _could_be_int_text(other, self.spec) else _int_text_eq(I, self, other)
+            raise Unsupported("comparison of symbolic text with a literal")
+        if not isinstance(other, SymText):
+            return False
+        a, b = self.flat(), other.flat()
+        if len(a) != len(b):
+            raise Unsupported("comparison of differently shaped symbolic texts")
+        conds = []
+        for x, y in zip(a, b):
+            if isinstance(x, str) or isinstance(y, str):
+                if x != y:
+                    raise Unsupported("comparison of differently shaped symbolic texts")
+                continue
+            if x.spec != y.spec or x.parts is not None or y.parts is not None:
+                raise Unsupported("comparison of differently shaped symbolic texts")
+            conds.append(I.py_eq(x.src, y.src))
+        return b_and(*conds)
+
+
+def _could_be_int_text(text, spec):
+    try:
+        int(text)
+        return True
+    except ValueError:
+        return False
+
+
+def _int_text_eq(I, st, text):
+    n = int(text)
+    try:
+        ok = format(n, st.spec) == text
+    except ValueError:
+        ok = False
+    if not ok:
+        return False
+    return I.py_eq(st.src, n)
+
+
+def m_text_split(I, obj, args, kw):
+    sep = args[0] if args else None
+    if not isinstance(sep, str) or not isinstance(obj, SymText):
+        raise Unsupported("split of symbolic text")
+    parts = obj.flat()
+    out = [[]]
+    for p in parts:
+        if isinstance(p, str):
+            pieces = p.split(sep)
+            out[-1].append(pieces[0]) if pieces[0] else None
+            for x in pieces[1:]:
+                out.append([x] if x else [])
+        else:
+            # axiom: the rendering of an integer contains no separator (sep is not a digit / sign)
+            if not isinstance(p.src, (SymInt, SymBool)) or any(ch.isdigit() or ch in "+- " for ch in sep):
+                raise Unsupported("split of symbolic text at a separator that may occur in a hole")
+            out[-1].append(p)
+    return [join_text(x) if x else "" for x in out]
+
 
 def joined_str(I, e, frame):
     parts = []
@@ -373,6 +438,8 @@ def joined_str(I, e, frame):
 def join_text(parts):
     if all(isinstance(p, str) for p in parts):
         return "".join(parts)
+    if len(parts) == 1:
+        return parts[0]
     flat = []
     for p in parts:
         if isinstance(p, SymText) and p.parts is not None:
@@ -699,6 +766,7 @@ _METHODS = {
     ("bytes", "join"): m_bytes_join,
     ("bytes", "split"): m_bytes_split,
     ("str", "encode"): m_str_encode,
+    ("str", "split"): m_text_split,
     ("str", "join"): m_str_join,
     ("str", "format"): lambda I, o, a, k: str_format(I, o, a, k),
     ("dict", "get"): m_dict_get,
@@ -1056,6 +1124,9 @@ def _convert(I, tname, args, kw):
             I.ctx.prove_side("int(float) fits 64-bit model: |x| < 2**62", mk_bool(z3.fpLT(z3.fpAbs(v.e), lim)))
             bv = z3.fpToSBV(RTZ, v.e, z3.BitVecSort(64))
             return SymInt(z3.BV2Int(bv, is_signed=True), None, (bv, True))
+        if isinstance(v, SymText) and v.parts is None and isinstance(v.src, (SymInt, SymBool)) and v.spec in ("", "d", "02", "02d", "2", "03", "3"):
+            # axiom: int(format(n, spec)) == n for these specs (validated against CPython each run)
+            return v.src if isinstance(v.src, SymInt) else mk_int(zi(v.src), 1)
         if isinstance(v, (SymStr, SymText, SymFmt)):
             raise Unsupported("int() of symbolic text")
         if is_plain(v) and all(is_plain(a) for a in args):
